@@ -396,6 +396,89 @@ def marks_ob(tname, opc, fmt, tier):
               oracle="instruction list by construction; labels from CPython's own findlabels source (arithmetic before 3.6)")
 
 
+def jumpmark_ob(tname, opc, op, fmt, tier):
+    """one jump opcode of the table between NOPs: '>>' marks exactly where CPython's own findlabels puts the target"""
+    vt = tuple(opc.version_tuple[:2])
+    word = vt >= (3, 6)
+    om = opc.opmap
+    nop = om["NOP"] if "NOP" in om else om["POP_TOP"]
+    name = opc.opname[op]
+    XS = [0, 1, 2, 3]
+    use_src = has_interp(opc) and vt >= (3, 6)
+
+    def build(x):
+        items, want = [], []
+
+        def emit(o, arg):
+            has_arg = o >= opc.HAVE_ARGUMENT
+            want.append((len(items), opc.opname[o], arg if has_arg else None))
+            items.extend([o, arg] if word else ([o, arg, 0] if has_arg else [o]))
+            for _ in range(cache_entries(opc, o)):
+                items.extend([om["CACHE"], 0])
+        for _ in range(6):
+            emit(nop, 0)
+        emit(op, x)
+        for _ in range(5):
+            emit(nop, 0)
+        emit(om["RETURN_VALUE"], 0)
+        return items, want
+
+    def run(x):
+        import xdis.bytecode as B
+        items, want = build(XS[x])
+        code = make_code(opc, items, False, 1)
+        saved = sys.stdout, sys.stderr
+        sys.stdout, sys.stderr = io.StringIO(), io.StringIO()
+        try:
+            text = B.Bytecode(code, opc).dis(asm_format=fmt)
+        finally:
+            sys.stdout, sys.stderr = saved
+        return text, items, want
+
+    def judge(r):
+        text, items, want = r
+        if use_src:
+            labels = sorted(set(oracles.load_dis(vt).findlabels(bytes(items))))
+        else:
+            off = want[6][0]
+            arg = want[6][2]
+            labels = [off + 3 + arg] if op in opc.hasjrel else [arg]
+        got = []
+        for ln in text.split("\n"):
+            if not ln.strip() or ln.startswith("#"):
+                continue
+            m = LINE_RE.match(ln)
+            if m is None:
+                return "unparsable listing line %r" % (ln,)
+            if m.group(6) == "CACHE":
+                continue
+            got.append(m)
+        if len(got) != len(want):
+            return "listing has %d instruction lines, the code has %d instructions" % (len(got), len(want))
+        for m, (off, nm, arg) in zip(got, want):
+            if int(m.group(4)) != off or m.group(6) != nm:
+                return "listing shows %s at %s, the code has %s at %d" % (m.group(6), m.group(4), nm, off)
+            if (m.group(3) is not None) != (off in labels):
+                return "%s %r: '>>' mark at offset %d is %s, CPython's findlabels gives targets %r" % (name, want[6][2], off, "present" if m.group(3) else "absent", labels)
+        return None
+
+    def body(x):
+        d = judge(run(x))
+        assert d is None, "unfaithful: " + d
+
+    def replay(x):
+        try:
+            return judge(run(x))
+        except Exception as e:
+            return "Bytecode.dis(%s) raises %s: %s" % (fmt, type(e).__name__, str(e)[:150])
+
+    return Ob(id="C12.%s.jumpmark.op%d.%s" % (tshort(tname), op, fmt), prop="C12", params=[("x", (0, 3))], body=body, replay=replay, funcs=FUNCS,
+              opaque_repr=False, region="%s.%s" % (tshort(tname), fmt),
+              skeleton="table=%s: 6 NOPs; %s x; 5 NOPs; RETURN - jump marks from dis.findlabels; format %s" % (tname, name, fmt),
+              bound="x in 0..3 (symbolic choice)", timeout=60 if tier == "quick" else 200,
+              oracle="labels from CPython's own findlabels source (arithmetic before 3.6)")
+
+
 def ext_ob(tname, opc, k, fmt, tier):
     """operands that need EXTENDED_ARG prefixes: the operand printed in the listing must be the folded value of the
     code bytes (computed arithmetically here, independently of xdis's own instruction stream)"""
@@ -659,6 +742,15 @@ def generate(tier, seed):
         if vt <= (3, 10):
             for fmt in (("classic",) if tier == "quick" else ("classic", "bytes", "extended")):
                 obs.append(linetab_ob(tname, opc, fmt, tier))
+        if "RETURN_VALUE" in opc.opmap:
+            jops = set(opc.hasjrel) | set(opc.hasjabs)
+            if has_interp(opc):
+                d = oracles.opcode_dump(vt)["opcode"]
+                jops |= set(d["hasjrel"]) | set(d["hasjabs"])
+            for op in sorted(jops):
+                if op < 256 and op < len(opc.opname) and not opc.opname[op].startswith("<") and opc.opname[op] in opc.opmap:
+                    for fmt in (("classic",) if tier == "quick" else ("classic", "bytes")):
+                        obs.append(jumpmark_ob(tname, opc, op, fmt, tier))
         if "JUMP_FORWARD" in opc.opmap and "FOR_ITER" in opc.opmap:
             for fmt in (("classic", "extended-bytes") if tier == "quick" else ("classic", "bytes", "extended", "extended-bytes")):
                 obs.append(marks_ob(tname, opc, fmt, tier))
